@@ -285,6 +285,39 @@ def r5(ctx, prog):
         raise AnalysisBroken('expected >=4 definition-time mutations, found %d' % n)
 
 
+def r7(ctx, prog):
+    ctx.rule('C16.R7', 'A12+A6 definition semantics: (a) registering a handler again replaces the earlier one, for a specific event as for the any-event slot — both branches of '
+             'addEvent() store by assignment (operator[] = / plain =), not by emplace/insert, which keep the first; (b) the built-in terminal state shared by all machines is '
+             'only ever referred to by run() as the transition target of last resort — no look-up hands it out to the definition calls, which would write into an object every '
+             'machine in the process shares', floor=2)
+    IM = [c for c in (prog.fn('tbox::flow::StateMachine::Impl::addEvent') or [])]
+    if not IM:
+        raise AnalysisBroken('StateMachine::Impl::addEvent not found')
+    f = IM[0]
+    stores = []
+    for c in f.calls():
+        if c.get('obj') is not None and f.path(c['obj']).endswith('events') and c.get('fn') in ('emplace', 'insert', 'try_emplace', 'emplace_hint', 'insert_or_assign', 'operator[]'):
+            stores.append(c)
+    keep_first = [c for c in stores if c['fn'] in ('emplace', 'insert', 'try_emplace', 'emplace_hint')]
+    overwrite = [c for c in stores if c['fn'] in ('insert_or_assign', 'operator[]')]
+    ctx.ob('C16.R7', '%s|re-registration-replaces' % f.name, bool(overwrite) and not keep_first, 'a handler registered again for the same event replaces the earlier one' if overwrite and not keep_first else
+           'addEvent() stores the handler with %s(), which keeps the first registration and silently drops later ones, while the any-event slot is assigned (last wins): the handler that '
+           'picks the target is not the one registered last' % (keep_first[0]['fn'] if keep_first else '?'), where=f.loc((keep_first or stores or [{'i': f.body}])[0]['i']))
+    # (b) who may refer to the shared terminal state
+    users = set()
+    for g in prog.funcs.values():
+        if not g.file.endswith('flow/state_machine.cpp'):
+            continue
+        for st in g.stmts:
+            if st and st['k'] == 'DeclRefExpr' and (st.get('n') or '').endswith('_term_state_'):
+                users.add(prog.outermost(g).short)
+    ok = bool(users) and users <= {'run'}
+    ctx.ob('C16.R7', 'StateMachine::Impl|term-state-users', ok, 'the shared terminal state is referred to by %s only' % sorted(users) if ok else
+           'the built-in terminal state, one object shared by every machine, is referred to by %s: a look-up that hands it out lets addEvent/addRoute/setSubStateMachine/start '
+           'accept an undefined state 0 and write into that shared object — a terminated machine stops being a sink and unrelated machines run each other\'s handlers' % sorted(users),
+           where=f.loc(f.body))
+
+
 def run(ctx):
     prog = extract('ALL' if ctx.tier == 'thorough' else SCOPE)
     ctx.guard(r1, ctx, prog)
@@ -292,5 +325,6 @@ def run(ctx):
     ctx.guard(r3, ctx, prog)
     ctx.guard(r4, ctx, prog)
     ctx.guard(r6, ctx, prog)
+    ctx.guard(r7, ctx, prog)
     ctx.guard(r5, ctx, prog)
     return prog
